@@ -44,9 +44,13 @@ EXTENDS Integers, Sequences, FiniteSets, FiniteSetsExt, TLC, Json, IOUtils
 CONSTANTS
     MaxSteps,     \* 1000 in the implementation
     Loop,         \* "copy" | "alias"
-    Family,       \* "all" | "relax" | "accum" | "looserel" | "slowaccum"  (which cases Init draws from), or
+    Family,       \* "all" | "relax" | "accum" | "looserel" | "slowaccum" | "zerovar" | "grow" | "ssupd"  (which cases Init draws from), or
                   \* "file": cases proposed by the harness in the JSON file IOEnv.CASE_FILE (oracle mode)
     Tier,         \* "quick" | "thorough"  (size of the grid)
+    NanRule,      \* "notconverged" | "converged": is an UNDEFINED norm (0/0 under the relative norm, inf - inf
+                  \* after overflow) convergence?  ("converged" = the guard `norm >= tol: continue`: must be refuted)
+    FluxRule,     \* "segment" | "stale": which parameter values the fluxes reported with a steady-state point are
+                  \* evaluated under: the point's own segment, or a stale earlier segment's (must be refuted)
     Reporter,     \* "contract" | "earlier": what get_result reports after a failed search on a simulator that
                   \* already holds results ("earlier" = hand back the earlier results: must be refuted by TLC)
     EmitOn
@@ -93,7 +97,13 @@ Case(net, kind, m, m2, ystar, dev, c, td, rel, user) ==
 \*                                                             continues from that state; its results stay held)
 \*                                               "simclear" : simulate(100), then clear_results (fresh again)
 WithPrior(c, p) == [c EXCEPT !.prior = p]
+\*                                               "ssupd"    : a steady-state search succeeded on the network with
+\*                                                             other influxes (steady state = this case's initial
+\*                                                             state ystar + dev, reached up to the tolerance), then
+\*                                                             the influx parameters were updated to this case's:
+\*                                                             the result has two segments, two steady-state points
 PriorOps(p) == CASE p = "none" -> <<>> [] p = "sim" -> <<"simulate">> [] p = "simclear" -> <<"simulate", "clear">>
+                 [] p = "ssupd" -> <<"steady", "update">>
 \* the same network with every concentration divided by 2^u (small concentrations: the absolute and the relative
 \* criterion then differ in strictness the other way round)
 Scaled(c, u) == [c EXCEPT !.u = u]
@@ -133,9 +143,20 @@ Cycle2 ==
 
 Unscaled   == {c \in Pool1 \cup Pools2 \cup Chain2 \cup Cycle2 :
                   \A i \in DOMAIN c.ystar : c.ystar[i] + c.dev[i] >= 0}
+\* a variable that is identically zero (a branch switched off by a zero rate constant): under the relative norm
+\* its contribution is 0/0 in every window -- the norm is undefined
+ZeroVar ==
+    {Case("pools2", "relax", m, 0, <<10, 0>>, <<d, 0>>, <<0, 0>>, td, rel, user) :
+        m \in (IF Tier = "quick" THEN {1} ELSE {1, 2}), d \in {0 - 7, 32}, td \in {128, 1000000}, rel \in BOOLEAN, user \in Users}
+HasZeroVar(c) == c.kind = "relax" /\ \E i \in DOMAIN c.ystar : c.ystar[i] = 0 /\ c.dev[i] = 0
+\* steady state, parameter update, steady state again (only networks whose excited modes share one rate for ANY
+\* change of the influxes: independent pools)
+SsUpd(S) == {WithPrior(c, "ssupd") : c \in {d \in S : /\ d.net \in {"pool1", "pools2"} /\ ~d.user /\ d.u = 0 /\ d.td # 1024
+                                                       /\ \A i \in DOMAIN d.ystar : d.ystar[i] + d.dev[i] >= 1 /\ d.dev[i] # 0}}
 Histories(S) == {WithPrior(c, p) : c \in {d \in S : ~d.user /\ d.u = 0}, p \in {"sim", "simclear"}}
 RelaxCases == Unscaled \cup {Scaled(c, 6) : c \in {d \in Unscaled : d.net \in {"pool1", "cycle2"}}}
               \cup Histories({c \in Unscaled : c.net \in {"pool1", "cycle2"} /\ c.td # 1024})
+              \cup ZeroVar \cup SsUpd(Unscaled)
 
 \* accumulation: the relative criterion is only meaningful for tolerances below 1 / MaxSteps (see LooseRel)
 Const1 ==
@@ -144,9 +165,10 @@ Const1 ==
 Feed2 ==
     {Case("feed2", "lin", 1, 0, <<1, y0>>, <<0, 0>>, <<0, c>>, td, rel, user) :
         y0 \in {1, 5}, c \in (IF Tier = "quick" THEN {2} ELSE {1, 2}), td \in Tds, rel \in BOOLEAN, user \in Users}
+\* m = 1 stays finite within the budget (2^1000), m >= 2 overflows the floating point range at step 1024 / m
 Grow1 ==
-    {Case("grow1", "grow", 1, 0, <<0>>, <<y0>>, <<0>>, td, rel, user) :
-        y0 \in (IF Tier = "quick" THEN {1} ELSE {1, 3}), td \in Tds, rel \in BOOLEAN, user \in Users}
+    {Case("grow1", "grow", m, 0, <<0>>, <<y0>>, <<0>>, td, rel, user) :
+        m \in {1, 2, 4}, y0 \in (IF Tier = "quick" THEN {1} ELSE {1, 3}), td \in (Tds \ {1024}), rel \in BOOLEAN, user \in Users}
 
 AccumAll   == LET A == Const1 \cup Feed2 \cup Grow1
               IN A \cup {Scaled(c, 6) : c \in {d \in A : d.net = "const1" /\ d.td >= 1024}}
@@ -160,6 +182,9 @@ Cases == CASE Family = "all"      -> RelaxCases \cup AccumCases
            [] Family = "accum"    -> AccumCases
            [] Family = "looserel" -> LooseRel
            [] Family = "slowaccum" -> SlowAccum
+           [] Family = "zerovar"  -> ZeroVar
+           [] Family = "grow"     -> {c \in Grow1 : c.m >= 2}
+           [] Family = "ssupd"    -> SsUpd(Unscaled)
            [] Family = "file"     -> LET f == JsonDeserialize(IOEnv.CASE_FILE) IN {f[j] : j \in DOMAIN f}
 
 (***************************************************************************)
@@ -199,6 +224,18 @@ RelLess(c, st, i, f) ==
                IN IF W <= 25 THEN (D \div Pow2(c.m)) < Abs(c.ystar[i] * Pow2(W) + c.dev[i])
                   ELSE c.ystar[i] >= 1     \* then |..| >= 2^26 - 32 > D / 2^m  (GridOK)
 
+\* Is the norm a number at all?  "nan": some component is 0/0 (relative norm, y1_i = 0 and no change), or the state
+\* of a growing network has left the floating point range (2^1024) at both ends of the window (inf - inf);
+\* "inf": x/0 with x # 0, or overflow at the end of the window only.  An infinite norm is simply not below the
+\* tolerance; an UNDEFINED norm is no evidence of convergence either (NanRule = "notconverged").
+Overflown(c, st) == c.kind = "grow" /\ c.m * st - c.u >= 1024
+NormKind(c, st) ==
+    IF Overflown(c, st) THEN "nan"
+    ELSE IF Overflown(c, st + 1) THEN "inf"
+    ELSE IF c.rel /\ \E i \in DOMAIN c.ystar : Y1Zero(c, st, i) /\ DiffN(c, i) = 0 THEN "nan"
+    ELSE IF c.rel /\ \E i \in DOMAIN c.ystar : Y1Zero(c, st, i) THEN "inf"
+    ELSE "num"
+
 CanDeclare(c, st) ==      \* the exact norm MAY be below the tolerance
     IF c.rel THEN \A i \in DOMAIN c.ystar : ~Y1Zero(c, st, i) /\ RelLess(c, st, i, 1)
     ELSE DyLess(NormLo(c) * c.td, DiffE(c, st), 1, 0)
@@ -212,7 +249,7 @@ GridOK(c) ==
     /\ \A i \in DOMAIN c.ystar :
           /\ Abs(c.dev[i]) <= 32 /\ c.ystar[i] \in 0..31 /\ Abs(c.c[i]) <= 32
           /\ 2 * DiffN(c, i) <= 1073741823 \div c.td           \* products with td and the factor 2 stay below 2^30
-          /\ (c.kind = "relax" /\ c.rel) => /\ c.ystar[i] >= 1
+          /\ (c.kind = "relax" /\ c.rel) => /\ (c.ystar[i] >= 1 \/ (c.ystar[i] = 0 /\ c.dev[i] = 0))
                                              /\ (2 * DiffN(c, i) * c.td) \div Pow2(c.m) < 67108832   \* 2^26 - 32
     /\ NormHi(c) <= 1073741823 \div c.td
 
@@ -232,8 +269,11 @@ Init ==
 \* global solutions), its rows are held and the integrator stands at its end; clear_results forgets both
 Before ==
     /\ todo # <<>>
-    /\ IF Head(todo) = "simulate" THEN held' = "rows" /\ off' = off + 1
-                                  ELSE held' = "none" /\ off' = 0
+    /\ CASE Head(todo) = "simulate" -> held' = "rows" /\ off' = off + 1
+         [] Head(todo) = "clear"    -> held' = "none" /\ off' = 0
+         [] Head(todo) = "steady"   -> held' = "rows" /\ off' = 0    \* one steady-state point held; the integrator
+                                                                     \* stands at it (the new search counts from here)
+         [] Head(todo) = "update"   -> UNCHANGED <<held, off>>        \* the case's own parameters are now in force
     /\ todo' = Tail(todo)
     /\ UNCHANGED <<cs, s, status, aliased>>
 
@@ -241,8 +281,10 @@ Before ==
 
 \* while y1 aliases y2 the difference is identically zero: 0 < tol, and 0 / y1_i = 0 unless y1_i = 0 (nan)
 P == s + off
-Can  == IF aliased THEN (cs.rel => \A i \in DOMAIN cs.ystar : ~Y1Zero(cs, P + 1, i)) ELSE CanDeclare(cs, P)
-Must == IF aliased THEN (cs.rel => \A i \in DOMAIN cs.ystar : ~Y1Zero(cs, P + 1, i)) ELSE MustDeclare(cs, P)
+CanNum  == IF aliased THEN (cs.rel => \A i \in DOMAIN cs.ystar : ~Y1Zero(cs, P + 1, i)) ELSE CanDeclare(cs, P)
+MustNum == IF aliased THEN (cs.rel => \A i \in DOMAIN cs.ystar : ~Y1Zero(cs, P + 1, i)) ELSE MustDeclare(cs, P)
+Can  == CASE NormKind(cs, P) = "num" -> CanNum  [] NormKind(cs, P) = "inf" -> FALSE [] OTHER -> NanRule = "converged"
+Must == CASE NormKind(cs, P) = "num" -> MustNum [] NormKind(cs, P) = "inf" -> FALSE [] OTHER -> NanRule = "converged"
 
 Declare ==
     /\ todo = <<>>
@@ -277,7 +319,24 @@ SuccessIsSteady ==
                    DyLess(Abs(cs.dev[i]) * (Pow2(cs.m) - 1) * cs.td, cs.m * P + cs.u, 1, 0)
 
 AccumFails     == cs.kind \in {"lin", "grow"} => status # "ok"
-RelaxConverges == cs.kind = "relax" => status # "fail" /\ s <= 40
+\* (a network with an identically-zero variable never gets a defined relative norm: the search may only fail)
+RelaxConverges == (cs.kind = "relax" /\ ~(cs.rel /\ HasZeroVar(cs))) => status # "fail" /\ s <= 40
+UndefinedIsNotConvergence ==
+    /\ (cs.rel /\ HasZeroVar(cs)) => status # "ok"
+    /\ (status = "ok" /\ s >= 1) => NormKind(cs, P - 1) = "num" \/ aliased
+
+\* Reported fluxes balance: the fluxes reported with the steady-state point of the LAST segment are the network's
+\* fluxes at that point under the parameter values UsedSeg says.  Under the point's own parameters the net flux
+\* into variable i is  -k (y_i - ystar_i)  (below k times the proven bound, same inequality as SuccessIsSteady);
+\* under the first segment's parameters (history "ssupd": steady state ystar + dev before the update) it is
+\* -k (y_i - (ystar_i + dev_i)),  at least k |dev_i| / 2 in size.
+FluxesBalance ==
+    (status = "ok" /\ cs.kind = "relax") =>
+        \A i \in DOMAIN cs.ystar :
+            IF FluxRule = "stale" /\ cs.prior = "ssupd"
+            THEN DyLess(Abs(cs.dev[i]) * (Pow2(cs.m) - 1) * cs.td, 1 + cs.u, 1, 0)
+            ELSE IF cs.rel THEN RelLess(cs, P - 1, i, 1)
+            ELSE DyLess(Abs(cs.dev[i]) * (Pow2(cs.m) - 1) * cs.td, cs.m * P + cs.u, 1, 0)
 GridIsOK       == GridOK(cs)
 
 \* what the caller sees
@@ -285,17 +344,18 @@ GridIsOK       == GridOK(cs)
 \* LAST row of the result is the steady state (the network's state after P steps).  A failed search must give a
 \* failure value WHATEVER happened on this simulator before; the wrong reporter hands back the earlier rows.
 GetResult ==
-    IF status = "ok" THEN [k |-> "value", last |-> P, earlier |-> held = "rows"]
-    ELSE IF Reporter = "earlier" /\ held = "rows" THEN [k |-> "value", last |-> off, earlier |-> TRUE]
-    ELSE [k |-> "error", last |-> 0, earlier |-> FALSE]
+    IF status = "ok" THEN [k |-> "value", last |-> P, earlier |-> held = "rows", segments |-> IF held = "rows" THEN 2 ELSE 1]
+    ELSE IF Reporter = "earlier" /\ held = "rows" THEN [k |-> "value", last |-> off, earlier |-> TRUE, segments |-> 1]
+    ELSE [k |-> "error", last |-> 0, earlier |-> FALSE, segments |-> 0]
 \* the scan worker builds a fresh simulator for every row: no history
 ScanRow   == IF status = "ok" THEN "state" ELSE "nan"
 Plumbing ==
     Done => /\ (GetResult.k = "value") = (status = "ok")
-            /\ status = "ok" => GetResult.last = P /\ GetResult.earlier = (cs.prior = "sim")
+            /\ status = "ok" => GetResult.last = P /\ GetResult.earlier = (cs.prior \in {"sim", "ssupd"})
             /\ (ScanRow = "nan") = (status = "fail")
             /\ status = "fail" => s = MaxSteps
             /\ todo = <<>> /\ off = (IF cs.prior = "sim" THEN 1 ELSE 0)
+            /\ status = "ok" => GetResult.segments = (IF cs.prior \in {"sim", "ssupd"} THEN 2 ELSE 1)
 
 \* a verdict that would flip if the tolerance were 10 times larger sits on a threshold (numerically fragile):
 \* in this family only accumulation judged by the relative norm with 1 / tol within a factor 10 of MaxSteps
@@ -304,6 +364,6 @@ Fragile(c) == \/ c.kind = "lin" /\ c.rel /\ c.td < 10 * (MaxSteps + 32)
               \/ c.kind = "lin" /\ ~c.rel /\ NormLo(c) * c.td < 10 * Pow2(c.u)
 
 Emit == (EmitOn /\ Done) =>
-    PrintT("@J@" \o ToJson([case |-> cs, outcome |-> status, steps |-> s, last |-> P, result |-> GetResult.k, scan |-> ScanRow,
+    PrintT("@J@" \o ToJson([case |-> cs, outcome |-> status, steps |-> s, last |-> P, undefined |-> cs.rel /\ HasZeroVar(cs), result |-> GetResult.k, scan |-> ScanRow,
                              fragile |-> Fragile(cs)]) \o "@E@")
 =============================================================================
